@@ -22,5 +22,7 @@ CfgLive == {MkCfg(m, "none", Prog2) : m \in Modes}
 CfgWitness == {MkCfg("thread", "late_copy", Prog2), MkCfg("thread", "no_yield_to", Prog2), MkCfg("pooled", "no_yield_to", Prog2),
                MkCfg("thread", "no_drain", Prog2), MkCfg("pooled", "no_drain", Prog2), MkCfg("thread", "resume_early", Prog2),
                MkCfg("inline", "resume_early", Prog2), MkCfg("inline", "marker_short", Prog2), MkCfg("inline", "no_delete", Prog2)}
+CfgWitnessQ == {MkCfg("thread", "late_copy", Prog2), MkCfg("pooled", "no_yield_to", Prog2), MkCfg("thread", "no_drain", Prog2),
+                MkCfg("inline", "resume_early", Prog2), MkCfg("inline", "marker_short", Prog2), MkCfg("inline", "no_delete", Prog2)}
 Sym == Permutations({w1, w2})
 ====
